@@ -4,7 +4,7 @@ import props_compute as pc
 TRUSTED = [
     "Lean 4.33.0 kernel (theorems re-checked by `lake build`; axioms audited with #print axioms: subset of propext, Classical.choice, Quot.sound)",
     "hand-written Lean model lean/ADModel/* (tied to /repo by the correspondence run of this check)",
-    "translator harness/py2lean.py + fragment specifications harness/genspec.py (lean/ADGen/Gen.lean is regenerated from the source on every run; which source expressions are opaque atoms, and what they stand for, is trusted)",
+    "translators harness/py2lean.py (scalar decision logic) and harness/py2heap.py (object-level statements: attribute reads / writes, list operations, loops on Structure objects -> functions on the object heap) + fragment specifications harness/genspec.py (lean/ADGen/Gen.lean is regenerated from the source on every run and the equivalence theorems lean/ADGen/Equiv*.lean are re-checked against it; which source expressions are opaque atoms, which attributes lie outside the heap view, and that a `while` loop is a fuel-bounded recursion, are trusted)",
     "Python harness /verif/harness (generators, observation of the real objects, canonicalisation, predicates)",
     "hook ASTRODENDRO_VERIF=1 in Dendrogram.compute (records the pixel processing order only)",
     "NumPy primitives (argsort/unique/bincount/fancy indexing), IEEE arithmetic outside the exact dyadic domain",
